@@ -114,17 +114,33 @@ func VerifH_C17_set() {
 		if ref.has {
 			symAssume(t != ref.mod)
 		}
-		if symChoice("op", 2) == 0 {
+		switch symChoice("op", 4) {
+		case 0:
 			val := "v" + is
 			symAssert(db.Set(vCtx, time.Unix(0, t), "k", val) == nil, "set-ok")
 			if !ref.has || (!ref.tomb && t > ref.mod) {
 				ref = vRef{val: val, mod: t, has: true}
 			}
-		} else {
+		case 1:
 			symAssert(db.Tombstone(vCtx, time.Unix(0, t), "k") == nil, "tombstone-ok")
 			if !ref.has || !ref.tomb || t < ref.mod {
 				ref = vRef{mod: t, tomb: true, has: true}
 			}
+		case 2: // purge tombstones older than t: the key is then absent as if never set
+			symAssert(db.RemoveTombstones(vCtx, time.Unix(0, t)) == nil, "remove-tombstones-ok")
+			if ref.has && ref.tomb && ref.mod < t {
+				ref = vRef{}
+			}
+		case 3: // continue on a clone: an independent database with the same entries
+			orig := db
+			cl, err := db.Clone(vCtx)
+			symAssert(err == nil, "clone-ok")
+			db = cl
+			// a write to the clone does not show in the original
+			symAssert(db.Set(vCtx, time.Unix(0, 1<<62), "other"+is, "x") == nil, "set-ok")
+			var tmp string
+			ok, err := orig.Get(vCtx, "other"+is, &tmp)
+			symAssert(err == nil && !ok, "clone-is-independent")
 		}
 		var got string
 		ok, err := db.Get(vCtx, "k", &got)
